@@ -4,7 +4,8 @@
    sync_event); [session] is the specification: what one consumer is owed, written without any reference to
    the other consumers; [wstep] / [wrun] model the write task for value downlinks (Idle / Writing,
    NEEDS_SYNC, the latest-value backpressure).
-   Not modelled: the map backpressure queue of the write task (runtime's MapOperationQueue; oracle only),
+   Not modelled here: the map backpressure queue of the write task (the runtime's MapOperationQueue is the
+   subject of C02: Model/MapQueue.v, Props/C02.v),
    consumers that fail or drop, KEEP_LINKED hand-over to a new connection, the inactivity time-out votes. *)
 From SwimV Require Import Model.DlRuntime Proofs.DlRuntimeProofs Proofs.DlWriteProofs.
 Open Scope N_scope.
